@@ -1,7 +1,992 @@
-//! C20 — not built yet.
+//! C20 — the language server tracks documents and formats them faithfully.
+//!
+//! Drives the real `LanguageServer` (crates/lsp) through `on_notification` and the
+//! `cfg(sqruff_verif)` request wrapper with histories (exhaustive over a small alphabet, seeded
+//! random longer ones), records the events of every operation, and
+//!  * observes the property directly (own uri -> text map, fresh linter per configuration,
+//!    own LSP edit application in UTF-16 units),
+//!  * emits `hist` records (compact ids) that bin/propcfg/c20.py turns into Coq cases for the
+//!    `Lsp` model with the lint/fix tables filled by the real linter,
+//!  * emits standard correspondence cases for the `format` and `docend` kernels.
+//! `load_config()` reads the working directory, so histories run in worker *processes*, each in
+//! its own directory under `<verif>/.cache/c20-work/`, whose `.sqruff` is rewritten by `WriteDisk`.
+use std::cell::RefCell;
+use std::collections::{BTreeMap, HashMap, HashSet};
+use std::io::Write as _;
+use std::path::PathBuf;
+use std::rc::Rc;
+
+use lsp_types::{DiagnosticSeverity, NumberOrString, PublishDiagnosticsParams, TextEdit};
+use serde_json::{Value, json};
+use sqruff_lib::core::config::FluffConfig;
+use sqruff_lib::core::linter::core::Linter;
+use sqruff_lsp::LanguageServer;
+
 use crate::common::*;
 
-pub fn main(_args: &Args) {
-    eprintln!("c20: not built yet");
-    std::process::exit(2);
+const DOC_URIS: [&str; 3] = ["file:///w/a.sql", "file:///w/b.sql", "file:///w/dir/c%20d.sql"];
+const SAVE_NAMES: [&str; 6] = [
+    "file:///w/.sqruff",
+    "file:///w/.sqlfluff",
+    "file:///w/a.sql",
+    "file:///w/.sqruff.bak",
+    "file:///w/sub/.sqruff",
+    "file:///w/sqruff",
+];
+/// Configuration files (contents of `<cwd>/.sqruff`). 0..3 are used by the exhaustive histories.
+const CONFIGS: [&str; 5] = [
+    "[sqruff]\ndialect = ansi\n",
+    "[sqruff]\ndialect = ansi\nrules = CP01,LT01,LT11\n",
+    "[sqruff]\ndialect = ansi\nexclude_rules = LT09,LT12\n\n[sqruff:rules:capitalisation.keywords]\ncapitalisation_policy = lower\n",
+    "[sqruff]\ndialect = bigquery\nrules = core\n\n[sqruff:indentation]\ntab_space_size = 2\n",
+    "[sqruff]\ndialect = ansi\ntemplater = placeholder\n\n[sqruff:templater:placeholder]\nparam_style = colon\nx = 7\n",
+];
+/// Texts. 0..4 are used by the exhaustive histories: clean, fix shorter in lines, fix longer in
+/// lines, fix of equal line count.
+const TEXTS: [&str; 15] = [
+    "SELECT a FROM t\n",
+    "SELECT a FROM t\n\n\n\n",
+    "SELECT a FROM t UNION SELECT b FROM u\n",
+    "SeLeCt  a from t\n",
+    "",
+    "select 1",
+    "SELECT a\r\nFROM t\r\n\r\n\r\n",
+    "SELECT 'h\u{e9}llo \u{1F600}'  AS x FROM t\n\n\n",
+    "SELECT a FROM t WHERE\n",
+    "\n\n\nSELECT a FROM t\n",
+    "SELECT a,b,c FROM t JOIN u ON t.id=u.id WHERE a in (1,2) AND b = :x\n\n",
+    "SELECT\n    a,\n    b\nFROM t\n",
+    "select a from t -- noqa\n\n\n",
+    "SELECT a FROM t;\n\nSELECT b FROM u;\n\n\n",
+    "SELECT aaaaaaaaaaaaaaaaaaaa, bbbbbbbbbbbbbbbbbbbb, cccccccccccccccccccc, dddddddddddddddddddd FROM some_table_name\n",
+];
+
+#[derive(Clone, Copy, Debug, PartialEq, Eq, Hash)]
+enum Op {
+    Open(usize, usize),
+    Change(usize, usize),
+    Close(usize),
+    WriteDisk(usize),
+    Save(usize),
+    Format(usize),
+    Other,
+}
+impl Op {
+    fn triple(&self) -> [usize; 3] {
+        match *self {
+            Op::Open(u, t) => [0, u, t],
+            Op::Change(u, t) => [1, u, t],
+            Op::Close(u) => [2, u, 0],
+            Op::WriteDisk(c) => [3, c, 0],
+            Op::Save(k) => [4, k, 0],
+            Op::Format(u) => [5, u, 0],
+            Op::Other => [6, 0, 0],
+        }
+    }
+    fn from_triple(x: &[usize]) -> Op {
+        match x[0] {
+            0 => Op::Open(x[1], x[2]),
+            1 => Op::Change(x[1], x[2]),
+            2 => Op::Close(x[1]),
+            3 => Op::WriteDisk(x[1]),
+            4 => Op::Save(x[1]),
+            5 => Op::Format(x[1]),
+            _ => Op::Other,
+        }
+    }
+}
+
+type DiagT = (u32, u32, Option<String>, String);
+type EditT = (u32, u32, u32, u32, String);
+
+#[derive(Clone, Debug, PartialEq)]
+enum Ev {
+    Publish(usize, u64),
+    Edits(u64),
+    Crash,
+}
+impl Ev {
+    fn triple(&self) -> [u64; 3] {
+        match self {
+            Ev::Publish(u, id) => [0, *u as u64, *id],
+            Ev::Edits(id) => [1, *id, 0],
+            Ev::Crash => [2, 0, 0],
+        }
+    }
+}
+
+fn fnv(s: &str) -> u64 {
+    let mut h: u64 = 0xcbf29ce484222325;
+    for b in s.as_bytes() {
+        h ^= *b as u64;
+        h = h.wrapping_mul(0x100000001b3);
+    }
+    h & ((1u64 << 50) - 1)
+}
+fn g_utf16(s: &str) -> String {
+    g_list(s.encode_utf16().map(|u| u.to_string()))
+}
+fn g_diags(ds: &[DiagT]) -> String {
+    g_list(ds.iter().map(|(l, c, code, msg)| g_tuple(&[l.to_string(), c.to_string(), g_opt(code.as_ref().map(|c| g_str(c))), g_str(msg)])))
+}
+fn g_edits(es: &[EditT]) -> String {
+    g_list(es.iter().map(|(a, b, c, d, n)| g_tuple(&[a.to_string(), b.to_string(), c.to_string(), d.to_string(), g_utf16(n)])))
+}
+
+/// Values seen in events, interned by content hash (the same in every worker process).
+#[derive(Default)]
+struct Intern {
+    diags: HashMap<u64, Vec<DiagT>>,
+    edits: HashMap<u64, Vec<EditT>>,
+    fresh: Vec<Value>,
+}
+impl Intern {
+    fn diag_id(&mut self, ds: &[DiagT]) -> u64 {
+        let id = fnv(&format!("d{:?}", ds));
+        if !self.diags.contains_key(&id) {
+            self.diags.insert(id, ds.to_vec());
+            self.fresh.push(json!({"t":"val","kind":"d","id":id,"g":g_diags(ds),"j":ds}));
+        }
+        id
+    }
+    fn edit_id(&mut self, es: &[EditT]) -> u64 {
+        let id = fnv(&format!("e{:?}", es));
+        if !self.edits.contains_key(&id) {
+            self.edits.insert(id, es.to_vec());
+            self.fresh.push(json!({"t":"val","kind":"e","id":id,"g":g_edits(es),"j":es}));
+        }
+        id
+    }
+}
+
+// ------------------------------------------------------------------ LSP text edits, per the specification
+/// Offset (UTF-16 units) of a position: a character past the end of the line clamps to the line
+/// end (before its terminator), a line past the last line clamps to the end of the document.
+fn offset_of(t: &[u16], line: u32, ch: u32) -> usize {
+    let (mut i, mut l) = (0usize, 0u32);
+    while l < line {
+        // skip one line including its terminator
+        loop {
+            if i >= t.len() {
+                return t.len();
+            }
+            let c = t[i];
+            i += 1;
+            if c == 10 {
+                break;
+            }
+            if c == 13 {
+                if i < t.len() && t[i] == 10 {
+                    i += 1;
+                }
+                break;
+            }
+        }
+        l += 1;
+    }
+    let mut k = 0u32;
+    while k < ch && i < t.len() && t[i] != 10 && t[i] != 13 {
+        i += 1;
+        k += 1;
+    }
+    i
+}
+fn apply_edits(text: &str, edits: &[EditT]) -> Option<String> {
+    let t: Vec<u16> = text.encode_utf16().collect();
+    match edits {
+        [] => Some(text.to_string()),
+        [(sl, sc, el, ec, new)] => {
+            let s = offset_of(&t, *sl, *sc);
+            let e = offset_of(&t, *el, *ec);
+            if s > e {
+                return None;
+            }
+            let mut r: Vec<u16> = t[..s].to_vec();
+            r.extend(new.encode_utf16());
+            r.extend_from_slice(&t[e..]);
+            String::from_utf16(&r).ok()
+        }
+        _ => None,
+    }
+}
+
+// ------------------------------------------------------------------ working directory, fresh-linter oracle
+fn cache_dir() -> PathBuf {
+    if let Ok(t) = std::env::var("CARGO_TARGET_DIR") {
+        if let Some(p) = PathBuf::from(t).parent() {
+            return p.to_path_buf();
+        }
+    }
+    let exe = std::env::current_exe().unwrap();
+    exe.ancestors().nth(3).map(|p| p.to_path_buf()).unwrap_or_else(std::env::temp_dir)
+}
+fn enter_workdir(tag: &str) -> PathBuf {
+    let d = cache_dir().join("c20-work").join(tag);
+    let _ = std::fs::remove_dir_all(&d);
+    std::fs::create_dir_all(&d).unwrap();
+    std::env::set_current_dir(&d).unwrap();
+    d
+}
+fn write_disk(c: usize) {
+    let _ = std::fs::remove_file(".sqlfluff");
+    std::fs::write(".sqruff", CONFIGS[c]).unwrap();
+}
+
+struct Entry {
+    viols: Vec<(usize, usize, Option<String>, String)>,
+    diags: Vec<DiagT>,
+    fixed: String,
+    lint_panic: bool,
+}
+/// lint/fix of every (configuration, text) by a *fresh* linter built from the configuration file,
+/// exactly as a new server (or the CLI) in that directory would.
+fn build_table(configs: &[usize], texts: &[usize]) -> BTreeMap<(usize, usize), Entry> {
+    let mut tab = BTreeMap::new();
+    for &c in configs {
+        write_disk(c);
+        let cfg = FluffConfig::from_root(None, false, None).unwrap_or_default();
+        let linter = Linter::new(cfg, None, None, false);
+        for &t in texts {
+            let r = catch(|| {
+                let res = linter.lint_string(TEXTS[t], None, false);
+                let viols: Vec<_> = res.violations.iter().map(|v| (v.line_no, v.line_pos, v.rule.as_ref().map(|r| r.code.to_string()), v.description.clone())).collect();
+                let fixed = linter.lint_string(TEXTS[t], None, true).fix_string();
+                (viols, fixed)
+            });
+            let e = match r {
+                Ok((viols, fixed)) => {
+                    let diags = viols.iter().map(|(l, p, c, d)| ((*l as u32).saturating_sub(1), (*p as u32).saturating_sub(1), c.clone(), d.clone())).collect();
+                    Entry { viols, diags, fixed, lint_panic: false }
+                }
+                Err(_) => Entry { viols: vec![], diags: vec![], fixed: String::new(), lint_panic: true },
+            };
+            tab.insert((c, t), e);
+        }
+    }
+    tab
+}
+
+// ------------------------------------------------------------------ the real server
+struct Srv {
+    ls: LanguageServer,
+    events: Rc<RefCell<Vec<PublishDiagnosticsParams>>>,
+}
+fn new_server() -> Srv {
+    let events: Rc<RefCell<Vec<PublishDiagnosticsParams>>> = Rc::new(RefCell::new(vec![]));
+    let ev2 = events.clone();
+    let ls = LanguageServer::new(move |p| ev2.borrow_mut().push(p));
+    Srv { ls, events }
+}
+fn uri_index(u: &str) -> usize {
+    DOC_URIS.iter().position(|x| *x == u).unwrap_or(7)
+}
+struct Shape {
+    bad: Option<String>,
+}
+fn canon_diags(p: &PublishDiagnosticsParams, shape: &mut Shape) -> Vec<DiagT> {
+    p.diagnostics
+        .iter()
+        .map(|d| {
+            if d.range.start != d.range.end || d.severity != Some(DiagnosticSeverity::WARNING) || d.source.as_deref() != Some("sqruff") {
+                shape.bad = Some(format!("{:?}", d));
+            }
+            let code = match &d.code {
+                Some(NumberOrString::String(s)) => Some(s.clone()),
+                Some(NumberOrString::Number(n)) => Some(n.to_string()),
+                None => None,
+            };
+            (d.range.start.line, d.range.start.character, code, d.message.clone())
+        })
+        .collect()
+}
+fn canon_edits(es: &[TextEdit]) -> Vec<EditT> {
+    es.iter().map(|e| (e.range.start.line, e.range.start.character, e.range.end.line, e.range.end.character, e.new_text.clone())).collect()
+}
+
+/// Apply one operation to the real server; returns its events (publish events sorted by uri).
+fn apply_op(srv: &mut Srv, op: Op, it: &mut Intern, shape: &mut Shape) -> (Vec<Ev>, Option<Vec<EditT>>) {
+    srv.events.borrow_mut().clear();
+    let mut evs = vec![];
+    let mut edits_out = None;
+    let ls = &mut srv.ls;
+    let r = catch(|| match op {
+        Op::Open(u, t) => {
+            ls.on_notification("textDocument/didOpen", json!({"textDocument":{"uri":DOC_URIS[u],"languageId":"sql","version":1,"text":TEXTS[t]}}));
+            None
+        }
+        Op::Change(u, t) => {
+            ls.on_notification("textDocument/didChange", json!({"textDocument":{"uri":DOC_URIS[u],"version":2},"contentChanges":[{"text":TEXTS[t]}]}));
+            None
+        }
+        Op::Close(u) => {
+            ls.on_notification("textDocument/didClose", json!({"textDocument":{"uri":DOC_URIS[u]}}));
+            None
+        }
+        Op::WriteDisk(c) => {
+            write_disk(c);
+            None
+        }
+        Op::Save(k) => {
+            ls.on_notification("textDocument/didSave", json!({"textDocument":{"uri":SAVE_NAMES[k]}}));
+            None
+        }
+        Op::Format(u) => ls.verif_on_request(7, "textDocument/formatting", json!({"textDocument":{"uri":DOC_URIS[u]},"options":{"tabSize":4,"insertSpaces":true}})),
+        Op::Other => {
+            ls.on_notification("workspace/didChangeConfiguration", json!({"settings":{}}));
+            let r = ls.verif_on_request(8, "textDocument/hover", json!({"textDocument":{"uri":DOC_URIS[0]},"position":{"line":0,"character":0}}));
+            if r.is_some() { Some(Value::String("unexpected-response".into())) } else { None }
+        }
+    });
+    let mut pubs: Vec<(usize, u64)> = vec![];
+    for p in srv.events.borrow().iter() {
+        let ds = canon_diags(p, shape);
+        pubs.push((uri_index(p.uri.as_str()), it.diag_id(&ds)));
+    }
+    pubs.sort();
+    for (u, id) in pubs {
+        evs.push(Ev::Publish(u, id));
+    }
+    match r {
+        Err(_) => evs.push(Ev::Crash),
+        Ok(Some(v)) => match serde_json::from_value::<Vec<TextEdit>>(v) {
+            Ok(es) => {
+                let ce = canon_edits(&es);
+                evs.push(Ev::Edits(it.edit_id(&ce)));
+                edits_out = Some(ce);
+            }
+            Err(_) => {
+                shape.bad = Some("response is not a list of TextEdit".into());
+            }
+        },
+        Ok(None) => {}
+    }
+    (evs, edits_out)
+}
+
+struct Hist {
+    cls: &'static str,
+    c0: usize,
+    ops: Vec<Op>,
+}
+
+#[derive(Default)]
+struct Stats {
+    direct: usize,
+    ops: usize,
+    publishes: usize,
+    formats_open: usize,
+    formats_shorter: usize,
+    formats_longer: usize,
+    cfg_rechecks: usize,
+    stale_sensitive: usize,
+    histories: usize,
+    servers: usize,
+    reset_ops: usize,
+}
+
+/// The specification's state: uri -> latest text, latest configuration, the file on disk;
+/// plus what was last published per uri.
+struct Spec {
+    docs: BTreeMap<usize, usize>,
+    conf: usize,
+    disk: usize,
+    last_pub: HashMap<usize, u64>,
+}
+
+struct Runner<'a> {
+    tab: &'a BTreeMap<(usize, usize), Entry>,
+    it: &'a mut Intern,
+    st: &'a mut Stats,
+}
+
+impl Runner<'_> {
+    /// Apply `ops` to the real server, record the batches, update the specification state and
+    /// observe the formatting clause directly. Returns whether something non-trivial happened.
+    fn run_ops(&mut self, srv: &mut Srv, spec: &mut Spec, ops: &[Op], shape: &mut Shape, batches: &mut Vec<Vec<Ev>>, fails: &mut Vec<(String, String)>) -> bool {
+        let tab = self.tab;
+        let mut nontrivial = false;
+        for &op in ops {
+            let (evs, edits) = apply_op(srv, op, self.it, shape);
+            self.st.ops += 1;
+            for e in &evs {
+                if let Ev::Publish(u, id) = e {
+                    spec.last_pub.insert(*u, *id);
+                    self.st.publishes += 1;
+                }
+            }
+            match op {
+                Op::Open(u, t) | Op::Change(u, t) => {
+                    spec.docs.insert(u, t);
+                }
+                Op::Close(u) => {
+                    spec.docs.remove(&u);
+                }
+                Op::WriteDisk(c) => spec.disk = c,
+                Op::Save(k) => {
+                    if SAVE_NAMES[k].ends_with(".sqruff") || SAVE_NAMES[k].ends_with(".sqlfluff") {
+                        if spec.conf != spec.disk && !spec.docs.is_empty() {
+                            self.st.cfg_rechecks += 1;
+                            nontrivial = true;
+                        }
+                        spec.conf = spec.disk;
+                    }
+                }
+                Op::Format(u) => {
+                    if let Some(&t) = spec.docs.get(&u) {
+                        self.st.formats_open += 1;
+                        self.st.direct += 1;
+                        let e = &tab[&(spec.conf, t)];
+                        let ol = TEXTS[t].lines().count();
+                        let nl = e.fixed.lines().count();
+                        if nl < ol {
+                            self.st.formats_shorter += 1;
+                            nontrivial = true;
+                        }
+                        if nl > ol {
+                            self.st.formats_longer += 1;
+                            nontrivial = true;
+                        }
+                        match &edits {
+                            Some(es) => {
+                                let got = apply_edits(TEXTS[t], es);
+                                if got.as_deref() != Some(e.fixed.as_str()) {
+                                    fails.push((
+                                        format!("c20-format:cfg{}:text{}", spec.conf, t),
+                                        format!("formatting {:?} under config {}: edits {:?} applied to the document give {:?}, the fix is {:?}", TEXTS[t], spec.conf, es, got, e.fixed),
+                                    ));
+                                }
+                            }
+                            None => {
+                                if !e.lint_panic {
+                                    fails.push((format!("c20-format-noanswer:cfg{}:text{}", spec.conf, t), "no edits returned for an open document".into()));
+                                }
+                            }
+                        }
+                    }
+                }
+                Op::Other => {}
+            }
+            batches.push(evs);
+        }
+        nontrivial
+    }
+
+    /// The diagnostics clause, observed directly: for every open document the diagnostics last
+    /// published are the lint of its latest text under the latest configuration.
+    fn check_open_docs(&mut self, spec: &Spec, fails: &mut Vec<(String, String)>) -> bool {
+        let tab = self.tab;
+        let mut nontrivial = false;
+        self.st.direct += 1;
+        for (&u, &t) in &spec.docs {
+            let e = &tab[&(spec.conf, t)];
+            if e.lint_panic {
+                continue;
+            }
+            let want = self.it.diag_id(&e.diags);
+            if !e.diags.is_empty() {
+                nontrivial = true;
+            }
+            // would another configuration / text have given something else? (sensitivity of the check)
+            if tab.iter().any(|((c2, t2), e2)| (*c2 != spec.conf || *t2 != t) && e2.diags != e.diags) {
+                self.st.stale_sensitive += 1;
+            }
+            match spec.last_pub.get(&u) {
+                Some(&got) if got == want => {}
+                got => {
+                    let gotv = got.and_then(|g| self.it.diags.get(g).cloned());
+                    fails.push((
+                        format!("c20-diag:cfg{}:text{}", spec.conf, t),
+                        format!("document {} holds text {} under config {}: last published diagnostics {:?}, lint of latest text under latest config {:?}", DOC_URIS[u], t, spec.conf, gotv, e.diags),
+                    ));
+                }
+            }
+        }
+        nontrivial
+    }
+
+    /// Run a chain of histories on ONE real server. Between two histories the harness brings the
+    /// server back to the initial state with ordinary operations (close every open document, restore
+    /// the configuration file, save it if the active configuration differs); these reset operations
+    /// are part of the recorded operation list, so the Coq model replays exactly what the server saw.
+    /// `sub` entries: [start, length, nontrivial] of each history inside the chain.
+    fn run_chain(&mut self, idx: usize, hs: &[&Hist], w: &mut Vec<Value>, retry_alone: bool) -> usize {
+        let c0 = hs[0].c0;
+        write_disk(c0);
+        let mut srv = new_server();
+        self.st.servers += 1;
+        let mut spec = Spec { docs: BTreeMap::new(), conf: c0, disk: c0, last_pub: HashMap::new() };
+        let mut shape = Shape { bad: None };
+        let mut all_ops: Vec<Op> = vec![];
+        let mut batches: Vec<Vec<Ev>> = vec![];
+        let mut subs: Vec<(usize, usize, bool)> = vec![];
+        let mut nfails = 0;
+        for (j, h) in hs.iter().enumerate() {
+            if j > 0 {
+                let mut r: Vec<Op> = spec.docs.keys().map(|u| Op::Close(*u)).collect();
+                if spec.disk != h.c0 {
+                    r.push(Op::WriteDisk(h.c0));
+                }
+                if spec.conf != h.c0 {
+                    r.push(Op::Save(0));
+                }
+                let mut ignored = vec![];
+                self.run_ops(&mut srv, &mut spec, &r, &mut shape, &mut batches, &mut ignored);
+                self.st.reset_ops += r.len();
+                all_ops.extend(r);
+            }
+            let start = all_ops.len();
+            let mut fails = vec![];
+            let mut nt = self.run_ops(&mut srv, &mut spec, &h.ops, &mut shape, &mut batches, &mut fails);
+            nt |= self.check_open_docs(&spec, &mut fails);
+            all_ops.extend(h.ops.iter().copied());
+            self.st.histories += 1;
+            if let Some(b) = shape.bad.take() {
+                fails.push(("c20-diag-shape".into(), format!("diagnostic with range start != end, severity != WARNING or source != sqruff, or malformed response: {}", b)));
+            }
+            if !fails.is_empty() {
+                nfails += fails.len();
+                // smallest reproducing input: the history alone on a fresh server if it fails there too
+                let mut reported = false;
+                if j > 0 && retry_alone {
+                    let mut w2 = vec![];
+                    let saved = std::mem::take(self.st);
+                    let n = self.run_chain(idx, &[*h], &mut w2, false);
+                    *self.st = saved;
+                    if n > 0 {
+                        w.extend(w2.into_iter().filter(|v| v["t"] == "dfail"));
+                        reported = true;
+                    }
+                }
+                if !reported {
+                    let input = json!({"c0":c0,"ops":all_ops.iter().map(|o| o.triple()).collect::<Vec<_>>(),
+                        "readable": all_ops.iter().map(|o| format!("{:?}", o)).collect::<Vec<_>>()});
+                    for (key, msg) in fails {
+                        w.push(json!({"t":"dfail","cls":h.cls,"key":key,"msg":msg,"input":input}));
+                    }
+                }
+            }
+            subs.push((start, h.ops.len(), nt));
+        }
+        w.push(json!({"t":"hist","i":idx,"cls":hs[0].cls,"c0":c0,"sub":subs,
+            "ops":all_ops.iter().map(|o| o.triple()).collect::<Vec<_>>(),
+            "ev":batches.iter().map(|b| b.iter().map(|e| e.triple()).collect::<Vec<_>>()).collect::<Vec<_>>()}));
+        nfails
+    }
+}
+
+// ------------------------------------------------------------------ generators
+fn alphabet_full() -> Vec<Op> {
+    let mut a = vec![];
+    for u in 0..2 {
+        for t in 0..4 {
+            a.push(Op::Open(u, t));
+        }
+    }
+    for u in 0..2 {
+        for t in 0..4 {
+            a.push(Op::Change(u, t));
+        }
+    }
+    for u in 0..2 {
+        a.push(Op::Close(u));
+    }
+    for c in 0..3 {
+        a.push(Op::WriteDisk(c));
+    }
+    for k in 0..3 {
+        a.push(Op::Save(k));
+    }
+    for u in 0..2 {
+        a.push(Op::Format(u));
+    }
+    a.push(Op::Other);
+    a
+}
+fn alphabet_reduced() -> Vec<Op> {
+    vec![
+        Op::Open(0, 1),
+        Op::Open(0, 2),
+        Op::Open(1, 3),
+        Op::Change(0, 0),
+        Op::Change(1, 1),
+        Op::Close(0),
+        Op::Close(1),
+        Op::WriteDisk(1),
+        Op::WriteDisk(2),
+        Op::Save(0),
+        Op::Format(0),
+        Op::Format(1),
+    ]
+}
+fn exhaustive(alpha: &[Op], len: usize, cls: &'static str, out: &mut Vec<Hist>) {
+    let n = alpha.len();
+    let total = n.pow(len as u32);
+    for code in 0..total {
+        let mut c = code;
+        let mut ops = Vec::with_capacity(len);
+        for _ in 0..len {
+            ops.push(alpha[c % n]);
+            c /= n;
+        }
+        out.push(Hist { cls, c0: 0, ops });
+    }
+}
+fn random_history(rng: &mut Rng, max_cfg: usize) -> Hist {
+    let len = rng.range(8, 40);
+    let nu = DOC_URIS.len();
+    let nt = TEXTS.len();
+    let mut ops = vec![];
+    for _ in 0..len {
+        let k = rng.below(100);
+        let op = if k < 22 {
+            Op::Open(rng.below(nu), rng.below(nt))
+        } else if k < 47 {
+            Op::Change(rng.below(nu), rng.below(nt))
+        } else if k < 57 {
+            Op::Close(rng.below(nu))
+        } else if k < 67 {
+            Op::WriteDisk(rng.below(max_cfg))
+        } else if k < 79 {
+            Op::Save(if rng.chance(2, 3) { rng.below(2) } else { rng.below(SAVE_NAMES.len()) })
+        } else if k < 97 {
+            Op::Format(rng.below(nu))
+        } else {
+            Op::Other
+        };
+        ops.push(op);
+    }
+    Hist { cls: "random", c0: rng.below(max_cfg), ops }
+}
+/// Which configurations the histories may use: the last one switches the templater (the server
+/// must rebuild its linter on a configuration save; `--without-templater-switch` leaves it out).
+fn n_configs(args: &Args) -> usize {
+    if args.extra.iter().any(|a| a == "--without-templater-switch") { CONFIGS.len() - 1 } else { CONFIGS.len() }
+}
+fn plan(args: &Args) -> Vec<Hist> {
+    let mut hs = vec![];
+    // regression corpus first
+    hs.push(Hist { cls: "regression", c0: 0, ops: vec![Op::Open(0, 1), Op::Format(0)] });
+    hs.push(Hist { cls: "regression", c0: 0, ops: vec![Op::Open(0, 3), Op::WriteDisk(2), Op::Save(0), Op::Format(0), Op::Close(0), Op::Format(0)] });
+    hs.push(Hist { cls: "regression", c0: 1, ops: vec![Op::Open(0, 6), Op::Open(1, 7), Op::WriteDisk(0), Op::Save(1), Op::Change(0, 13), Op::Format(0), Op::Format(1)] });
+    if n_configs(args) == CONFIGS.len() {
+        // the templater changes with the configuration (fixed: stale templater after a configuration save)
+        hs.push(Hist { cls: "regression", c0: 4, ops: vec![Op::WriteDisk(0), Op::Save(0), Op::Open(0, 10), Op::Format(0)] });
+        hs.push(Hist { cls: "regression", c0: 0, ops: vec![Op::Open(0, 10), Op::WriteDisk(4), Op::Save(0), Op::Format(0), Op::Change(0, 10)] });
+    }
+    let full = alphabet_full();
+    let red = alphabet_reduced();
+    let (lf, lr, nrand) = if args.thorough() { (4, 5, 3000) } else { (3, 4, 300) };
+    for l in 1..=lf {
+        exhaustive(&full, l, "exhaustive-full", &mut hs);
+    }
+    exhaustive(&red, lr, "exhaustive-reduced", &mut hs);
+    let mut rng = Rng::new(args.seed);
+    let nc = n_configs(args);
+    for _ in 0..nrand {
+        hs.push(random_history(&mut rng, nc));
+    }
+    hs
+}
+
+fn all_ids(n: usize) -> Vec<usize> {
+    (0..n).collect()
+}
+
+// ------------------------------------------------------------------ worker / parent
+const CHAIN: usize = 12;
+
+fn worker(args: &Args, spec: &str) {
+    let (k, n) = spec.split_once('/').map(|(a, b)| (a.parse::<usize>().unwrap(), b.parse::<usize>().unwrap())).unwrap();
+    enter_workdir(&format!("{}-w{}", std::process::id(), k));
+    let nc = n_configs(args);
+    let tab = build_table(&all_ids(nc), &all_ids(TEXTS.len()));
+    let hs = plan(args);
+    let mut it = Intern::default();
+    let mut st = Stats::default();
+    let f = std::fs::File::create(&args.out).unwrap();
+    let mut wr = std::io::BufWriter::new(f);
+    let mut lines: Vec<Value> = vec![];
+    // chains of consecutive histories of the same class; chain c goes to worker c % n
+    let mut chains: Vec<(usize, Vec<&Hist>)> = vec![];
+    for (i, h) in hs.iter().enumerate() {
+        let chainable = h.cls.starts_with("exhaustive");
+        match chains.last_mut() {
+            Some((_, c)) if chainable && c.len() < CHAIN && c[0].cls == h.cls => c.push(h),
+            _ => chains.push((i, vec![h])),
+        }
+    }
+    for (ci, (i, c)) in chains.iter().enumerate() {
+        if ci % n != k {
+            continue;
+        }
+        let mut r = Runner { tab: &tab, it: &mut it, st: &mut st };
+        r.run_chain(*i, c, &mut lines, true);
+        for v in it.fresh.drain(..) {
+            writeln!(wr, "{}", v).unwrap();
+        }
+        for v in lines.drain(..) {
+            writeln!(wr, "{}", v).unwrap();
+        }
+    }
+    writeln!(wr, "{}", json!({"t":"wstat","direct":st.direct,"ops":st.ops,"publishes":st.publishes,"formats_open":st.formats_open,
+        "formats_shorter":st.formats_shorter,"formats_longer":st.formats_longer,"cfg_rechecks":st.cfg_rechecks,"stale_sensitive":st.stale_sensitive,
+        "histories":st.histories,"servers":st.servers,"reset_ops":st.reset_ops})).unwrap();
+    writeln!(wr, "{}", json!({"t":"wdone"})).unwrap();
+    wr.flush().unwrap();
+    let _ = std::env::set_current_dir("/");
+    let _ = std::fs::remove_dir_all(cache_dir().join("c20-work").join(format!("{}-w{}", std::process::id(), k)));
+}
+
+fn gen_docend_texts(args: &Args) -> Vec<(String, &'static str)> {
+    let mut v: Vec<(String, &'static str)> = vec![];
+    // exhaustive over {a, \n, \r} up to length 5
+    let alpha = ['a', '\n', '\r'];
+    for len in 0..=5usize {
+        for code in 0..alpha.len().pow(len as u32) {
+            let mut c = code;
+            let mut s = String::new();
+            for _ in 0..len {
+                s.push(alpha[c % 3]);
+                c /= 3;
+            }
+            v.push((s, "docend-exhaustive"));
+        }
+    }
+    let mut rng = Rng::new(args.seed ^ 0xd0ce);
+    let chars = ['a', 'b', ' ', '\n', '\n', '\r', '\u{e9}', '\u{1F600}', '\t', '\u{2028}'];
+    for _ in 0..(if args.thorough() { 3000 } else { 400 }) {
+        let len = rng.range(0, 24);
+        let s: String = (0..len).map(|_| *rng.pick(&chars)).collect();
+        v.push((s, "docend-random"));
+    }
+    for t in TEXTS {
+        v.push((t.to_string(), "docend-texts"));
+    }
+    v
+}
+
+fn emit_tables(out: &mut Out, tab: &BTreeMap<(usize, usize), Entry>) {
+    let texts = g_list(TEXTS.iter().map(|t| g_utf16(t)));
+    let names = g_list(SAVE_NAMES.iter().map(|t| g_str(t)));
+    let lint = g_list(tab.iter().filter(|(_, e)| !e.lint_panic).map(|((c, t), e)| {
+        g_tuple(&[c.to_string(), t.to_string(), g_list(e.viols.iter().map(|(l, p, code, d)| g_tuple(&[l.to_string(), p.to_string(), g_opt(code.as_ref().map(|c| g_str(c))), g_str(d)])))])
+    }));
+    let fix = g_list(tab.iter().filter(|(_, e)| !e.lint_panic).map(|((c, t), e)| g_tuple(&[c.to_string(), t.to_string(), g_utf16(&e.fixed)])));
+    out.line(json!({"t":"tables","texts":texts,"names":names,"lint":lint,"fix":fix,
+        "configs":CONFIGS,"texts_j":TEXTS,"uris":DOC_URIS,"save_names":SAVE_NAMES}));
+}
+
+fn format_cases(out: &mut Out, tab: &BTreeMap<(usize, usize), Entry>, only: Option<(usize, usize)>) {
+    let mut buf = Buf::default();
+    let mut it = Intern::default();
+    for ((c, t), e) in tab.iter() {
+        if let Some(o) = only {
+            if o != (*c, *t) {
+                continue;
+            }
+        }
+        if e.lint_panic {
+            buf.count("table_lint_panics", 1);
+            continue;
+        }
+        write_disk(*c);
+        let mut srv = new_server();
+        let mut shape = Shape { bad: None };
+        apply_op(&mut srv, Op::Open(0, *t), &mut it, &mut shape);
+        let (_, edits) = apply_op(&mut srv, Op::Format(0), &mut it, &mut shape);
+        let Some(es) = edits else {
+            buf.direct("format-table", false, &format!("c20-format-noanswer:cfg{}:text{}", c, t), "no edits", json!({"c0":c,"ops":[[0,0,t],[5,0,0]]}));
+            continue;
+        };
+        let ol = TEXTS[*t].lines().count();
+        let nl = e.fixed.lines().count();
+        let cls = if nl < ol { "format-fix-shorter" } else if nl > ol { "format-fix-longer" } else if e.fixed != TEXTS[*t] { "format-fix-same-lines" } else { "format-clean" };
+        for group in ["format", "fmtedit"] {
+            buf.case(
+                group,
+                cls,
+                nl != ol,
+                g_tuple(&[g_utf16(TEXTS[*t]), g_utf16(&e.fixed)]),
+                g_edits(&es),
+                json!({"input":{"c0":c,"ops":[[0,0,t],[5,0,0]]},"config":CONFIGS[*c],"text":TEXTS[*t],"fixed":e.fixed,"edits":es}),
+            );
+        }
+        // hypothesis of C20_zero_based: the linter's positions are one-based and fit u32
+        for (l, p, _, _) in &e.viols {
+            buf.hyp("H_one_based (1 <= line_no, line_pos < 2^32 in every lint result)", "blocking", *l >= 1 && *p >= 1 && (*l as u64) < (1u64 << 32) && (*p as u64) < (1u64 << 32), json!({"config":c,"text":TEXTS[*t],"line":l,"pos":p}));
+        }
+    }
+    out.absorb(buf);
+}
+
+fn docend_cases(out: &mut Out, args: &Args) {
+    let mut buf = Buf::default();
+    for (s, cls) in gen_docend_texts(args) {
+        let (l, c) = sqruff_lsp::verif_end_of_document(&s);
+        let nontrivial = s.contains('\r') || s.chars().any(|c| c as u32 > 0xffff);
+        buf.case("docend", cls, nontrivial, g_utf16(&s), g_tuple(&[l.to_string(), c.to_string()]), json!({"input":{"docend_text":s},"end":[l,c]}));
+        // direct: the position is the end of the document for the harness' own LSP offset function
+        let t: Vec<u16> = s.encode_utf16().collect();
+        buf.direct(cls, offset_of(&t, l, c) == t.len() && offset_of(&t, l, c.saturating_sub(1)) + (c.min(1) as usize) == t.len(), "c20-docend", &format!("end_of_document({:?}) = ({},{}) is not the exact end of the document", s, l, c), json!({"docend_text":s}));
+    }
+    out.absorb(buf);
+}
+
+pub fn main(args: &Args) {
+    silence_panics();
+    if let Some(spec) = args.flag("--worker") {
+        worker(args, &spec);
+        return;
+    }
+    let mut out = Out::new(&args.out);
+    let tag = format!("{}-p", std::process::id());
+    let wd = enter_workdir(&tag);
+    let nc = n_configs(args);
+    let tab = build_table(&all_ids(nc), &all_ids(TEXTS.len()));
+    emit_tables(&mut out, &tab);
+
+    if args.extra.iter().any(|a| a == "--time") {
+        let t0 = std::time::Instant::now();
+        for _ in 0..200 {
+            let _s = new_server();
+        }
+        eprintln!("new_server: {:?} each", t0.elapsed() / 200);
+        let mut srv = new_server();
+        let mut it = Intern::default();
+        let mut shape = Shape { bad: None };
+        let t0 = std::time::Instant::now();
+        for i in 0..200 {
+            apply_op(&mut srv, Op::Open(0, i % 4), &mut it, &mut shape);
+        }
+        eprintln!("open: {:?} each", t0.elapsed() / 200);
+        let t0 = std::time::Instant::now();
+        for _ in 0..200 {
+            apply_op(&mut srv, Op::Format(0), &mut it, &mut shape);
+        }
+        eprintln!("format: {:?} each", t0.elapsed() / 200);
+        let t0 = std::time::Instant::now();
+        for _ in 0..200 {
+            apply_op(&mut srv, Op::Save(0), &mut it, &mut shape);
+        }
+        eprintln!("save-cfg (1 doc): {:?} each", t0.elapsed() / 200);
+    }
+    if args.extra.iter().any(|a| a == "--probe") {
+        for ((c, t), e) in &tab {
+            eprintln!("cfg {} text {} {:?}\n   viols {:?}\n   fixed {:?} panic={}", c, t, TEXTS[*t], e.viols.iter().map(|v| (v.0, v.1, v.2.clone())).collect::<Vec<_>>(), e.fixed, e.lint_panic);
+        }
+    }
+
+    if let Some(path) = args.flag("--replay-input") {
+        let v: Value = serde_json::from_str(&std::fs::read_to_string(path).unwrap()).unwrap();
+        let v = if v.get("input").is_some() { v["input"].clone() } else { v };
+        if let Some(s) = v.get("docend_text").and_then(|s| s.as_str()) {
+            let (l, c) = sqruff_lsp::verif_end_of_document(s);
+            let mut buf = Buf::default();
+            let t: Vec<u16> = s.encode_utf16().collect();
+            buf.case("docend", "replay", true, g_utf16(s), g_tuple(&[l.to_string(), c.to_string()]), json!({"input":{"docend_text":s},"end":[l,c]}));
+            buf.direct("replay", offset_of(&t, l, c) == t.len(), "c20-docend", "end_of_document is not the end of the document", json!({"docend_text":s}));
+            out.absorb(buf);
+        } else {
+            let c0 = v["c0"].as_u64().unwrap_or(0) as usize;
+            let ops: Vec<Op> = v["ops"].as_array().unwrap().iter().map(|o| Op::from_triple(&o.as_array().unwrap().iter().map(|x| x.as_u64().unwrap() as usize).collect::<Vec<_>>())).collect();
+            let h = Hist { cls: "replay", c0, ops };
+            let mut it = Intern::default();
+            let mut st = Stats::default();
+            let mut lines = vec![];
+            Runner { tab: &tab, it: &mut it, st: &mut st }.run_chain(0, &[&h], &mut lines, false);
+            forward(&mut out, it.fresh.drain(..).chain(lines.drain(..)).collect(), &mut HashSet::new());
+            out.n_direct += st.direct;
+            // the format kernel of the first formatted (config, text), if the history is the two-op form
+            if h.ops.len() == 2 {
+                if let (Op::Open(_, t), Op::Format(_)) = (h.ops[0], h.ops[1]) {
+                    format_cases(&mut out, &tab, Some((c0, t)));
+                }
+            }
+        }
+        finish(out, &wd);
+        return;
+    }
+
+    format_cases(&mut out, &tab, None);
+    docend_cases(&mut out, args);
+
+    // histories: worker processes, one working directory each
+    let nworkers = std::env::var("SQV_THREADS").ok().and_then(|s| s.parse().ok()).unwrap_or(16usize).max(1);
+    let exe = std::env::current_exe().unwrap();
+    let mut children = vec![];
+    for k in 0..nworkers {
+        let wout = wd.join(format!("worker-{}.jsonl", k));
+        let mut cmd = std::process::Command::new(&exe);
+        cmd.arg("c20").arg("--tier").arg(&args.tier).arg("--seed").arg(args.seed.to_string()).arg("--out").arg(&wout).arg("--worker").arg(format!("{}/{}", k, nworkers));
+        if nc != CONFIGS.len() {
+            cmd.arg("--without-templater-switch");
+        }
+        children.push((cmd.spawn().expect("spawn worker"), wout));
+    }
+    let mut seen_vals: HashSet<(String, u64)> = HashSet::new();
+    let mut totals: BTreeMap<String, u64> = BTreeMap::new();
+    let mut ok_workers = 0;
+    for (mut ch, wout) in children {
+        let status = ch.wait().expect("wait worker");
+        let text = std::fs::read_to_string(&wout).unwrap_or_default();
+        let mut lines = vec![];
+        let mut done = false;
+        for l in text.lines() {
+            let Ok(v) = serde_json::from_str::<Value>(l) else { continue };
+            match v["t"].as_str().unwrap_or("") {
+                "wstat" => {
+                    for (k, x) in v.as_object().unwrap() {
+                        if let Some(n) = x.as_u64() {
+                            *totals.entry(k.clone()).or_default() += n;
+                        }
+                    }
+                }
+                "wdone" => done = true,
+                _ => lines.push(v),
+            }
+        }
+        if status.success() && done {
+            ok_workers += 1;
+        }
+        forward(&mut out, lines, &mut seen_vals);
+    }
+    out.n_direct += *totals.get("direct").unwrap_or(&0) as usize;
+    out.stat(json!({"workers":nworkers,"workers_ok":ok_workers,"history_totals":totals}));
+    if ok_workers != nworkers {
+        // an incomplete run must not look like a pass
+        eprintln!("c20: {} of {} workers failed", nworkers - ok_workers, nworkers);
+        let _ = std::env::set_current_dir("/");
+        let _ = std::fs::remove_dir_all(&wd);
+        std::process::exit(3);
+    }
+    finish(out, &wd);
+}
+
+fn forward(out: &mut Out, lines: Vec<Value>, seen_vals: &mut HashSet<(String, u64)>) {
+    let mut buf = Buf::default();
+    let mut nfail = 0usize;
+    for v in lines {
+        match v["t"].as_str().unwrap_or("") {
+            "val" => {
+                let key = (v["kind"].as_str().unwrap_or("").to_string(), v["id"].as_u64().unwrap_or(0));
+                if seen_vals.insert(key) {
+                    out.line(v);
+                }
+            }
+            "dfail" => {
+                buf.direct(v["cls"].as_str().unwrap_or(""), false, v["key"].as_str().unwrap_or(""), v["msg"].as_str().unwrap_or(""), v["input"].clone());
+                nfail += 1;
+            }
+            _ => out.line(v),
+        }
+    }
+    out.absorb(buf);
+    // n_direct is counted from the workers' totals; compensate the increments of absorb
+    out.n_direct -= nfail;
+}
+
+fn finish(out: Out, wd: &PathBuf) {
+    let _ = std::env::set_current_dir("/");
+    let _ = std::fs::remove_dir_all(wd);
+    out.finish();
 }
